@@ -142,7 +142,7 @@ CLAIMED = {
         "coordinates closer than the cell size land in the same or an adjacent cell; under the bookkeeping invariant every other registered atom in an adjacent cell is returned by the 27-cell query; "
         "the invariant holds after EVERY sequence of protocol-obeying place / remove / move operations; after every such history the query is EXACT (near_exact: b is returned iff b is another registered atom of an adjacent cell; near_nodup: nothing is returned twice; "
         "near_in_range: two registered atoms closer than the cell size along every axis find each other, for any rational coordinates). Model tied to the real Cells by random operation sequences (incl. protocol-violating ones). "
-        "The end-to-end claim additionally needs the callers to obey the protocol: monitored on real runs (every neighbour query compared with brute force over the live structure: lost, ghost and doubly returned neighbours); the call sites that break it are genuine defects listed as known findings.",
+        "The end-to-end claim additionally needs the callers to obey the protocol: monitored on real runs (every neighbour query compared with brute force over the live structure: lost, ghost and doubly returned neighbours); the call sites that break it are genuine defects listed as known findings. The callers' clause (round 4): near_within_cutoff - a caller whose distance filter r does not exceed the cell size loses no registered atom closer than r (squared Euclidean distance over Q), cutoff_beyond_cell_size_refuted - with r beyond the cell size atoms are lost (4 A apart in a 2 A list); the run-time monitor compares every real neighbour query at the distance its CALLER filters with (read from the caller's source text), also on --noopt runs with waters in hydrogen-bond range.",
         note="partial by nature: caller discipline is monitored on runs, not proved for all structures; int() truncation supplied by the driver",
         ref="DESIGN.md §4 C14",
     ),
